@@ -113,7 +113,7 @@ func init() {
 		Mutant{ID: "fp1-int-drops-increment", Props: []string{"C02"}, File: "arshal_default.go", Func: "makeIntArshaler",
 			Old: "\t\t\txe.Tokens.Last.Increment()\n", New: "", Rule: "FP-1"},
 		Mutant{ID: "fp2-emptymap-drops-name-guard", Props: []string{"C02"}, File: "arshal_default.go", Func: "makeMapArshaler",
-			Old: "if optimizeCommon && !mo.Flags.Get(jsonflags.AnyWhitespace) && !xe.Tokens.Last.NeedObjectName() {", New: "if optimizeCommon && !mo.Flags.Get(jsonflags.AnyWhitespace) {", Rule: "FP-2"},
+			Old: "if optimizeCommon && !mo.Flags.Get(jsonflags.AnyWhitespace) && !xe.Tokens.Last.NeedObjectName() && !xe.Tokens.AtMaxDepth() {", New: "if optimizeCommon && !mo.Flags.Get(jsonflags.AnyWhitespace) && !xe.Tokens.AtMaxDepth() {", Rule: "FP-2"},
 		Mutant{ID: "fp3-int-drops-whitespace-guard", Props: []string{"C02", "C07"}, File: "arshal_default.go", Func: "makeIntArshaler",
 			Old: "if optimizeCommon && !mo.Flags.Get(jsonflags.AnyWhitespace) && !stringify {", New: "if optimizeCommon && !stringify {", Rule: "FP-3"},
 		Mutant{ID: "fp4-float-returns-before-needflush", Props: []string{"C02", "C07"}, File: "arshal_default.go", Func: "makeFloatArshaler",
@@ -562,8 +562,8 @@ func init() {
 		Mutant{ID: "flagpair1-conjunction-to-mask", Props: []string{"C09", "C19"}, File: "arshal_default.go", Func: "makePointerArshaler",
 			Old: "if uo.Flags.Get(jsonflags.StringTag) && uo.Flags.Get(jsonflags.StringifyWithLegacySemantics) {", New: "if uo.Flags.Get(jsonflags.StringTag | jsonflags.StringifyWithLegacySemantics) {", Rule: "FLAGPAIR-1"},
 		Mutant{ID: "within1-mark-before-early-eof", Props: []string{"C20", "C17"}, File: "arshal_methods.go", Func: "makeMethodArshaler",
-			Old: "\t\t\tif prevDepth == 1 && xd.AtEOF() {\n\t\t\t\treturn io.EOF // check EOF early to avoid fn reporting an EOF\n\t\t\t}\n\t\t\txd.Flags.Set(jsonflags.WithinArshalCall | 1)\n",
-			New: "\t\t\txd.Flags.Set(jsonflags.WithinArshalCall | 1)\n\t\t\tif prevDepth == 1 && xd.AtEOF() {\n\t\t\t\treturn io.EOF // check EOF early to avoid fn reporting an EOF\n\t\t\t}\n", Rule: "WITHIN-1"},
+			Old: "\t\t\tif prevDepth == 1 && xd.AtEOF() {\n\t\t\t\treturn io.EOF // check EOF early to avoid fn reporting an EOF\n\t\t\t}\n\t\t\twasWithin := xd.Flags.Get(jsonflags.WithinArshalCall) // true for a nested call on the same coder\n\t\t\txd.Flags.Set(jsonflags.WithinArshalCall | 1)\n",
+			New: "\t\t\twasWithin := xd.Flags.Get(jsonflags.WithinArshalCall) // true for a nested call on the same coder\n\t\t\txd.Flags.Set(jsonflags.WithinArshalCall | 1)\n\t\t\tif prevDepth == 1 && xd.AtEOF() {\n\t\t\t\treturn io.EOF // check EOF early to avoid fn reporting an EOF\n\t\t\t}\n", Rule: "WITHIN-1"},
 		Mutant{ID: "unwrite3-trim-under-option", Props: []string{"C02", "C15"}, File: "jsontext/encode.go", Func: "encoderState.UnwriteEmptyObjectMember",
 			Old: "\tb = jsonwire.TrimSuffixString(b)\n\tb = jsonwire.TrimSuffixWhitespace(b)\n", New: "\tb = jsonwire.TrimSuffixString(b)\n\tif e.Flags.Get(jsonflags.Multiline) {\n\t\tb = jsonwire.TrimSuffixWhitespace(b)\n\t}\n", Rule: "UNWRITE-3"},
 		Mutant{ID: "index1-fast-path-misses-offset-zero", Props: []string{"C16", "C11"}, File: "jsontext/errors.go", Func: "wrapWithObjectName",
@@ -750,5 +750,40 @@ func init() {
 	addMutants(
 		Mutant{ID: "within2-marshalto-mark-cleared-unconditionally", Props: []string{"C17"}, File: "arshal_methods.go", Func: "makeMethodArshaler",
 			Old: "\t\t\tif !wasWithin {\n\t\t\t\txe.Flags.Set(jsonflags.WithinArshalCall | 0)\n\t\t\t}\n", New: "\t\t\t_ = wasWithin\n\t\t\txe.Flags.Set(jsonflags.WithinArshalCall | 0)\n", Rule: "WITHIN-2"},
+	)
+}
+
+func init() {
+	addMutants(
+		// ---- round-m strengthening
+		Mutant{ID: "v18-legacy-empty-without-interface", Props: []string{"C09"}, File: "arshal_default.go", Func: "isLegacyEmpty",
+			Old: "case reflect.Pointer, reflect.Interface:", New: "case reflect.Pointer:", Rule: "V1-8"},
+		Mutant{ID: "v18-text-marshaler-guard-ignores-forced-addr", Props: []string{"C09"}, File: "arshal_methods.go", Func: "makeMethodArshaler",
+			Old: "\t\t\t\t(needAddr && va.forcedAddr) {\n\t\t\t\treturn prevMarshal(enc, va, mo)\n\t\t\t}\n\t\t\tmarshaler, _ := reflect.TypeAssert[encoding.TextMarshaler](va.Addr())", New: "\t\t\t\t(needAddr && !va.forcedAddr) {\n\t\t\t\treturn prevMarshal(enc, va, mo)\n\t\t\t}\n\t\t\tmarshaler, _ := reflect.TypeAssert[encoding.TextMarshaler](va.Addr())", Rule: "V1-8"},
+		Mutant{ID: "v18-newdecoder-converts-instead-of-wrapping", Props: []string{"C09"}, File: "v1/stream.go", Func: "NewDecoder",
+			Old: "r = struct{ io.Reader }{r}", New: "r = io.Reader(r)", Rule: "V1-8"},
+		Mutant{ID: "nilfmt1-map-emitnull-keeps-option", Props: []string{"C19"}, File: "arshal_default.go", Func: "makeMapArshaler",
+			Old: "\t\t\t\tcase \"emitnull\":\n\t\t\t\t\temitNull = true\n", New: "\t\t\t\tcase \"emitnull\":\n", Rule: "NILFMT-1"},
+		Mutant{ID: "fmtcomp1-minutes-only-with-hours", Props: []string{"C04"}, File: "arshal_time.go", Func: "appendDurationISO8601",
+			Old: "\tif min > 0 {\n", New: "\tif hour > 0 {\n", Rule: "FMTCOMP-1"},
+		Mutant{ID: "escflag1-escape-cleared-only-for-quote", Props: []string{"C04"}, File: "fields.go", Func: "consumeTagOption",
+			Old: "\t\t\t\t\tb = b[:len(b)-1] // remove escape character: `\\'` => `'`\n\t\t\t\t}\n\t\t\t\tinEscape = false\n", New: "\t\t\t\t\tb = b[:len(b)-1] // remove escape character: `\\'` => `'`\n\t\t\t\t\tinEscape = false\n\t\t\t\t}\n", Rule: "ESCFLAG-1"},
+		Mutant{ID: "ws3-value-kind-trims-three-of-four", Props: []string{"C06"}, File: "jsontext/value.go", Func: "Value.Kind",
+			Old: "if v := v[jsonwire.ConsumeWhitespace(v):]; len(v) > 0 {", New: "if v := bytes.TrimLeft(v, \" \\t\\n\"); len(v) > 0 {", Rule: "WS-3"},
+		Mutant{ID: "kinddef1-any-default-reads-token", Props: []string{"C03"}, File: "arshal_default.go", Func: "makeInterfaceArshaler",
+			Old: "\t\t\t\t_, err := dec.ReadValue()\n\t\t\t\treturn err\n", New: "\t\t\t\t_, err := dec.ReadToken()\n\t\t\t\treturn err\n", Rule: "KINDDEF-1"},
+		Mutant{ID: "unwrite4-escaped-quote-test-needs-long-buffer", Props: []string{"C02"}, File: "jsontext/encode.go", Func: "encoderState.UnwriteEmptyObjectMember",
+			Old: "if b[len(b)-3] == '\\\\' {", New: "if b[len(b)-3] == '\\\\' && len(b) > 8 {", Rule: "UNWRITE-4"},
+		Mutant{ID: "errcmp1-needmore-matches-wrapped-sentinel", Props: []string{"C05"}, File: "jsontext/decode.go", Func: "",
+			Old: "\treturn err == io.ErrUnexpectedEOF\n", New: "\treturn errors.Is(err, io.ErrUnexpectedEOF)\n", Rule: "ERRCMP-1"},
+	)
+}
+
+func init() {
+	addMutants(
+		Mutant{ID: "appender1-user-method-sees-whole-buffer", Props: []string{"C02", "C17"}, File: "arshal_methods.go", Func: "makeMethodArshaler",
+			Old: "appender.AppendText(b[len(b):])", New: "appender.AppendText(b[:len(b):len(b)])", Rule: "APPENDER-1"},
+		Mutant{ID: "appender1-user-result-replaces-buffer", Props: []string{"C02", "C20"}, File: "arshal_methods.go", Func: "makeMethodArshaler",
+			Old: "\t\t\t\tb2, err := appender.AppendText(b[len(b):])\n\t\t\t\treturn append(b, b2...), err\n", New: "\t\t\t\tb2, err := appender.AppendText(b[len(b):])\n\t\t\t\tif len(b) == 0 {\n\t\t\t\t\treturn b2, err\n\t\t\t\t}\n\t\t\t\treturn append(b, b2...), err\n", Rule: "APPENDER-1"},
 	)
 }
